@@ -274,13 +274,17 @@ func ErrClass(err error) string {
 	return "err:other"
 }
 
+// DrainMax bounds what is drained from the sink after cancellation (the largest sink holds 128).
+var DrainMax = 1000
+
 // Wait is the bounded wait that turns "no progress" into blocked / hang.
 var Wait = 2 * time.Second
 
 // Observe starts Run, lets `consumers` goroutines Acquire until end of ammo (or until
 // `cancelAfter` items were taken, cancelAfter >= 0; then the context is cancelled and the sink
-// is drained), and reports what was seen.
-func Observe(b *Built, consumers int, cancelAfter int) Obs {
+// is drained), and reports what was seen. maxItems > 0 bounds what is collected from a provider
+// that never stops (reported as blocked: no end of ammo was observed).
+func Observe(b *Built, consumers int, cancelAfter int, maxItems int) Obs {
 	ctx, cancel := context.WithCancel(context.Background())
 	defer cancel()
 	runDone := make(chan string, 1)
@@ -322,9 +326,11 @@ func Observe(b *Built, consumers int, cancelAfter int) Obs {
 	}
 	var seq []int
 	// collect runs until `active` consumers left or nothing happens for Wait
-	collect := func(active int) (sawEOF bool, blocked bool) {
+	// (or, with maxItems > 0, until that many more items arrived: a provider that keeps producing)
+	collect := func(active int, maxItems int) (sawEOF bool, blocked bool) {
 		t := time.NewTimer(Wait)
 		defer t.Stop()
+		got := 0
 		for active > 0 {
 			select {
 			case e := <-events:
@@ -333,6 +339,10 @@ func Observe(b *Built, consumers int, cancelAfter int) Obs {
 					sawEOF = sawEOF || e.eof
 				} else {
 					seq = append(seq, e.idx)
+					got++
+					if maxItems > 0 && got >= maxItems {
+						return sawEOF, true
+					}
 				}
 				if !t.Stop() {
 					select {
@@ -359,12 +369,13 @@ func Observe(b *Built, consumers int, cancelAfter int) Obs {
 	for i := 0; i < consumers; i++ {
 		go consume(cancelAfter >= 0)
 	}
-	sawEOF, blocked := collect(consumers)
+	sawEOF, blocked := collect(consumers, maxItems)
 	o := Obs{}
 	switch {
 	case blocked:
 		o.After = "blocked"
 		o.Run = waitRun()
+		cancel()
 	case sawEOF:
 		o.After = "closed"
 		o.Run = waitRun()
@@ -373,8 +384,20 @@ func Observe(b *Built, consumers int, cancelAfter int) Obs {
 		time.Sleep(20 * time.Millisecond)
 		cancel()
 		o.Run = waitRun()
-		go consume(false)
-		eof, bl := collect(1)
+		var stop atomic.Bool
+		go func() {
+			defer func() { recover() }()
+			for !stop.Load() {
+				a, ok := b.P.Acquire()
+				if !ok {
+					events <- ev{done: true, eof: true}
+					return
+				}
+				events <- ev{idx: b.Ident(a)}
+			}
+		}()
+		eof, bl := collect(1, DrainMax)
+		stop.Store(true)
 		if eof && !bl {
 			o.After = "closed"
 		} else {
